@@ -7,38 +7,40 @@ EXTENDS Sync, Json
 \* the dense part (5), on a sample point (3), between sample points (4, 2) and beyond;
 \* Batch = 2 splits a 4-block download in two requests; ReqH = 4 puts the second request of
 \* branch a on the checkpoint + pre-validation path.
-TreeA == [
+WithId(t) == [par |-> t.par, h |-> t.h, cls |-> t.cls, lo |-> t.lo, hi |-> t.hi, id |-> [b \in DOMAIN t.par |-> b]]
+
+TreeA == WithId([
   par |-> [g |-> "g", t1 |-> "g", t2 |-> "t1", a3 |-> "t2", a4 |-> "a3", a5 |-> "a4", a6 |-> "a5", b3 |-> "t2", b4 |-> "b3", b5 |-> "b4"],
   h   |-> [g |-> 0, t1 |-> 1, t2 |-> 2, a3 |-> 3, a4 |-> 4, a5 |-> 5, a6 |-> 6, b3 |-> 3, b4 |-> 4, b5 |-> 5],
   cls |-> [g |-> "ok", t1 |-> "ok", t2 |-> "ok", a3 |-> "ok", a4 |-> "ok", a5 |-> "ok", a6 |-> "ok", b3 |-> "ok", b4 |-> "ok", b5 |-> "ok"],
   lo  |-> [g |-> 0, t1 |-> 1, t2 |-> 2, a3 |-> 3, a4 |-> 4, a5 |-> 5, a6 |-> 6, b3 |-> 3, b4 |-> 4, b5 |-> 5],
-  hi  |-> [g |-> 0, t1 |-> 1, t2 |-> 2, a3 |-> 3, a4 |-> 4, a5 |-> 5, a6 |-> 6, b3 |-> 3, b4 |-> 4, b5 |-> 5]]
+  hi  |-> [g |-> 0, t1 |-> 1, t2 |-> 2, a3 |-> 3, a4 |-> 4, a5 |-> 5, a6 |-> 6, b3 |-> 3, b4 |-> 4, b5 |-> 5]])
 
 \* a smaller tree for three nodes: trunk g-t1, a2..a4, b2..b3, c3 off a2
-TreeC == [
+TreeC == WithId([
   par |-> [g |-> "g", t1 |-> "g", a2 |-> "t1", a3 |-> "a2", a4 |-> "a3", b2 |-> "t1", b3 |-> "b2", c3 |-> "a2"],
   h   |-> [g |-> 0, t1 |-> 1, a2 |-> 2, a3 |-> 3, a4 |-> 4, b2 |-> 2, b3 |-> 3, c3 |-> 3],
   cls |-> [g |-> "ok", t1 |-> "ok", a2 |-> "ok", a3 |-> "ok", a4 |-> "ok", b2 |-> "ok", b3 |-> "ok", c3 |-> "ok"],
   lo  |-> [g |-> 0, t1 |-> 1, a2 |-> 2, a3 |-> 3, a4 |-> 4, b2 |-> 2, b3 |-> 3, c3 |-> 3],
-  hi  |-> [g |-> 0, t1 |-> 1, a2 |-> 2, a3 |-> 3, a4 |-> 4, b2 |-> 2, b3 |-> 3, c3 |-> 3]]
+  hi  |-> [g |-> 0, t1 |-> 1, a2 |-> 2, a3 |-> 3, a4 |-> 4, b2 |-> 2, b3 |-> 3, c3 |-> 3]])
 
 \* ---- byzantine family: honest chain g-t1-a2-a3-a4; crafted blocks: z2 (header-valid, body
 \* invalid) and z3 on top of it, y2 (rejected at submission: insufficient work / bad payout /
 \* wrong height), w4 (invalid block on top of the honest a3), v2-v3 (a VALID fork only Z has).
-TreeB == [
+TreeB == WithId([
   par |-> [g |-> "g", t1 |-> "g", a2 |-> "t1", a3 |-> "a2", a4 |-> "a3", z2 |-> "t1", z3 |-> "z2", y2 |-> "t1", w4 |-> "a3", v2 |-> "t1", v3 |-> "v2"],
   h   |-> [g |-> 0, t1 |-> 1, a2 |-> 2, a3 |-> 3, a4 |-> 4, z2 |-> 2, z3 |-> 3, y2 |-> 2, w4 |-> 4, v2 |-> 2, v3 |-> 3],
   cls |-> [g |-> "ok", t1 |-> "ok", a2 |-> "ok", a3 |-> "ok", a4 |-> "ok", z2 |-> "bad", z3 |-> "bad", y2 |-> "hdr", w4 |-> "bad", v2 |-> "ok", v3 |-> "ok"],
   lo  |-> [g |-> 0, t1 |-> 1, a2 |-> 2, a3 |-> 3, a4 |-> 4, z2 |-> 2, z3 |-> 3, y2 |-> 2, w4 |-> 4, v2 |-> 2, v3 |-> 3],
-  hi  |-> [g |-> 0, t1 |-> 1, a2 |-> 2, a3 |-> 3, a4 |-> 4, z2 |-> 2, z3 |-> 3, y2 |-> 2, w4 |-> 4, v2 |-> 2, v3 |-> 3]]
+  hi  |-> [g |-> 0, t1 |-> 1, a2 |-> 2, a3 |-> 3, a4 |-> 4, z2 |-> 2, z3 |-> 3, y2 |-> 2, w4 |-> 4, v2 |-> 2, v3 |-> 3]])
 
 \* quick tier: the same ingredients on 8 blocks
-TreeBq == [
+TreeBq == WithId([
   par |-> [g |-> "g", t1 |-> "g", a2 |-> "t1", a3 |-> "a2", z2 |-> "t1", y2 |-> "t1", w3 |-> "a2", v2 |-> "t1"],
   h   |-> [g |-> 0, t1 |-> 1, a2 |-> 2, a3 |-> 3, z2 |-> 2, y2 |-> 2, w3 |-> 3, v2 |-> 2],
   cls |-> [g |-> "ok", t1 |-> "ok", a2 |-> "ok", a3 |-> "ok", z2 |-> "bad", y2 |-> "hdr", w3 |-> "bad", v2 |-> "ok"],
   lo  |-> [g |-> 0, t1 |-> 1, a2 |-> 2, a3 |-> 3, z2 |-> 2, y2 |-> 2, w3 |-> 3, v2 |-> 2],
-  hi  |-> [g |-> 0, t1 |-> 1, a2 |-> 2, a3 |-> 3, z2 |-> 2, y2 |-> 2, w3 |-> 3, v2 |-> 2]]
+  hi  |-> [g |-> 0, t1 |-> 1, a2 |-> 2, a3 |-> 3, z2 |-> 2, y2 |-> 2, w3 |-> 3, v2 |-> 2]])
 
 \* ---- node sets, topologies, assignments
 H2 == {"n1", "n2"}
@@ -58,6 +60,10 @@ TipsA2 == [H2 -> {"g", "t1", "t2", "a3", "a4", "a5", "a6", "b3", "b4", "b5"}]
 TipsC3 == {f \in [H3 -> {"g", "t1", "a2", "a4", "b3", "c3"}] : \E n \in H3 : f[n] = "a4"}
 \* quick: the heaviest branch at the end (n1) or in the middle (n2) of the line
 TipsC3q == {f \in [H3 -> {"g", "a2", "a4", "b3", "c3"}] : (f["n1"] = "a4" /\ f["n2"] # "a4" /\ f["n3"] # "a4") \/ (f["n2"] = "a4" /\ f["n1"] # "a4" /\ f["n3"] # "a4" /\ f["n1"] = "b3")}
+\* triangle: every pair is connected, a few representative assignments
+TipsTri3 == {[n \in H3 |-> IF n = "n1" THEN "a4" ELSE IF n = "n2" THEN "b3" ELSE "c3"],
+             [n \in H3 |-> IF n = "n1" THEN "a4" ELSE IF n = "n2" THEN "g" ELSE "b3"],
+             [n \in H3 |-> IF n = "n1" THEN "a4" ELSE IF n = "n2" THEN "a2" ELSE "t1"]}
 TipsA3 == {f \in [H3 -> {"t1", "a4", "a6", "b5"}] : \E n \in H3 : f[n] = "a6"}
 
 \* checkpoint family: n2 bootstrapped at t2 (holds t2 and everything above on its chain)
